@@ -97,12 +97,25 @@ func TestVerifC02Pinned(t *testing.T) {
 			}
 		}
 	}
-	for _, r := range rows {
+	shard, nshards := verifkit.Shard()
+	for i, r := range rows {
+		if i%nshards != shard {
+			continue
+		}
 		for _, p := range []placement{foreign, foreignOwnPlain, foreignExtraPlain, own, none} {
-			r, p := r, p
-			runCase(rec, r.build, p, r.runs, func() any { return r.name }, func(f string, a ...any) {
-				t.Errorf("pinned row %q placement=%s: %s", r.name, p, fmt.Sprintf(f, a...))
-			})
+			views := []visibility{visible}
+			if p.isForeign() {
+				views = append(views, visibility{Mode: "hidden"})
+				for _, k := range []int{1, 2, 3, 5, 8} {
+					views = append(views, visibility{Mode: "appears", K: k})
+				}
+			}
+			for _, v := range views {
+				r, p, v := r, p, v
+				runCase(rec, r.build, p, v, r.runs, func() any { return r.name }, func(f string, a ...any) {
+					t.Errorf("pinned row %q placement=%s: %s", r.name, p, fmt.Sprintf(f, a...))
+				})
+			}
 		}
 	}
 }
